@@ -3,7 +3,7 @@
 // the same entity or invalid.  (collect_garbage / leaving deferred mode vs. the reference renumbering: C02 job c02-k2; property
 // values through garbage collection: C03.)  Also: deferred deletions + collect_garbage == the same deletions done immediately,
 // up to renumbering (two real meshes compared through tag properties).
-// shard params: 0 base, 1 mode (bit1 fast; bit0: deferred flag of the mesh before the call), 2 kind of the selector-marked entity (0..3),
+// shard params: 0 base, 1 mode (bit1 fast; bit0: deferred flag of the mesh before the call; bits 2..4: bottom-up kinds switched off after building), 2 kind of the selector-marked entity (0..3),
 // 3 chunk, 4 second marked entity kind+1 (0: none), 5 its index, 6 manifoldness flag, 7 tracked overload (0: plain, 1: with handle tracking).
 #include "ops.h"
 #include "refmodel.h"
@@ -21,10 +21,11 @@ static void mark(StatusAttrib &st, int k, int i) {
 static int find_id(const int *ids, int n, int maxn, int t) { int r = -1; for (int j = 0; j < maxn; ++j) if (j < n && ids[j] == t) r = j; return r; }
 
 static __attribute__((noinline)) void do_case(unsigned i) {
-  unsigned base = v_param(0), mode = v_param(1), kind1 = v_param(2), chunk = v_param(3), kind2p = v_param(4), idx2 = v_param(5), manifold = v_param(6), tracked = v_param(7);
+  unsigned base = v_param(0), mode = v_param(1) & 3, bu_off = (v_param(1) >> 2) & 7, kind1 = v_param(2), chunk = v_param(3), kind2p = v_param(4), idx2 = v_param(5), manifold = v_param(6), tracked = v_param(7);
   TopologyKernel m;
   set_mode(m, mode);
   build_base(m, base);
+  if (bu_off) apply_op(m, OP_BU_OFF, bu_off, 0);
   StatusAttrib st(m);
   Snap before; take_snapshot(m, before);
   if (before.overflow) return;
